@@ -111,6 +111,33 @@ type Node struct {
 	GenesisDoc haqqtypes.GenesisState
 	// Absent marks validators (by index) that do not sign the next blocks.
 	Absent map[int]bool
+	// Log is the history fed to this node: one record per block (the last one may be open).
+	Log []BlockRec
+}
+
+// BlockRec is the input of one block.
+type BlockRec struct {
+	Opts BlockOpts
+	Txs  [][]byte
+}
+
+// Twin builds an independent node from the same configuration and feeds it the same
+// history, including the transactions of the currently open block.
+func (n *Node) Twin() *Node {
+	cfg := n.Cfg
+	cfg.DB = nil
+	t := New(cfg)
+	for i, b := range n.Log {
+		t.BeginBlock(b.Opts)
+		for _, tx := range b.Txs {
+			t.Deliver(tx)
+		}
+		if i < len(n.Log)-1 || !n.InBlock {
+			t.EndBlock()
+			t.Commit()
+		}
+	}
+	return t
 }
 
 type EncCfg struct {
@@ -441,6 +468,8 @@ func (n *Node) BeginBlock(o BlockOpts) abci.ResponseBeginBlock {
 		ByzantineValidators: o.Evidence,
 	})
 	n.InBlock = true
+	o.Votes = votes
+	n.Log = append(n.Log, BlockRec{Opts: o})
 	return res
 }
 
@@ -448,6 +477,7 @@ func (n *Node) Deliver(tx []byte) abci.ResponseDeliverTx {
 	if !n.InBlock {
 		panic("Deliver outside a block")
 	}
+	n.Log[len(n.Log)-1].Txs = append(n.Log[len(n.Log)-1].Txs, tx)
 	return n.App.DeliverTx(abci.RequestDeliverTx{Tx: tx})
 }
 
@@ -541,3 +571,5 @@ func (n *Node) DoubleSignEvidence(i int, height int64, t time.Time) abci.Misbeha
 }
 
 var _ = tmtypes.ABCIPubKeyTypeEd25519
+
+func Errf(format string, a ...any) error { return fmt.Errorf(format, a...) }
